@@ -466,6 +466,13 @@ def run(ctx):
                 d0, f0, t0, m0 = case
                 planned.append((d0, "add_mark", [f0, t0, m0], (lambda f0, t0, m0: lambda tr: tr.add_mark(f0, t0, m0))(f0, t0, m0)))
                 ctx.count("aimed_exclusion_cases")
+        for _ in range(ctx.budget(2, 5)):
+            # aimed: add a mark whose blocker sits behind an unrelated mark of intermediate rank (private random stream)
+            case = gen.gen_blocked_behind_case(__import__("random").Random(ctx.seed * 104729 + si * 31 + _), schema)
+            if case is not None:
+                d0, f0, t0, m0 = case
+                planned.append((d0, "add_mark", [f0, t0, m0], (lambda f0, t0, m0: lambda tr: tr.add_mark(f0, t0, m0))(f0, t0, m0)))
+                ctx.count("aimed_blocked_behind_cases")
         needy = [x for x in schema.nodes.values() if x.is_textblock and not x.content_match.valid_end]
         if needy:
             # aimed: retyping whole documents to a textblock type whose content must not be empty — an emptied or empty block
